@@ -181,7 +181,7 @@ Section Graph.
     flat_map (fun p => node_lists (snd p)) gnodes.
   Definition compute_scope (steps : positive) : PSet.t :=
     fst (Pos.iter sc_step (PSet.empty, sc_roots) steps).
-  Definition default_steps : positive := 2000000.
+  Definition default_steps : positive := 400000.
 
   Definition scope : PSet.t := compute_scope default_steps.
   Definition hints_sound_b : bool := hints_ok_b scope.
@@ -190,14 +190,17 @@ Section Graph.
   (** a code token: (T1) if its ASCII-upper-cased raw is a template of a string parser, the raw upper-cased
       the way [prune_options] does it ([to_uppercase]) is the same string; (T2) its class types contain its
       type; (T3) it does not carry the kind of a [NodeMatcher] in scope whose hint lacks that kind *)
-  Definition tok_ok_b (sc : PSet.t) (t : ptok) : bool :=
+  Definition tok_ok_with (tpl risky : list N) (t : ptok) : bool :=
     negb (p_code t)
-    || ((negb (memN (p_upper t) templates) || opt_eqb N.eqb (p_fnw t) (Some (p_upper t)))
+    || ((negb (memN (p_upper t) tpl) || opt_eqb N.eqb (p_fnw t) (Some (p_upper t)))
         && memN (p_kind t) (p_types t)
-        && negb (memN (p_kind t) (risky_kinds sc))).
+        && negb (memN (p_kind t) risky)).
+  Definition tok_ok_b (sc : PSet.t) (t : ptok) : bool := tok_ok_with templates (risky_kinds sc) t.
   Definition toks_ok (toks : PositiveMap.t ptok) : Prop :=
     forall i t, get toks i = Some t -> tok_ok_b scope t = true.
-  Definition toks_ok_b (l : list ptok) : bool := forallb (tok_ok_b scope) l.
+  (** on a token list (the two lists are computed once) *)
+  Definition toks_ok_b (l : list ptok) : bool :=
+    let tpl := templates in let risky := risky_kinds scope in forallb (tok_ok_with tpl risky) l.
 
   (** the first code token is outside hint [h] (in terms of what the matchers read) *)
   Definition outside (h : hint) (t : ptok) : bool :=
